@@ -9,7 +9,13 @@
 
    Threads: U (client.Close), R (the other closer, inside conn.Close), and any number n of other read-lock holders
    (request calls, keepalive pings) which wait only for timers and therefore can always finish ("env" step).
-   Go's RWMutex: a waiting writer blocks new readers. *)
+   Go's RWMutex: a waiting writer blocks new readers.
+
+   Since repair c1f53c8 (finding F32) client.Close no longer takes the read lock at all (it reads the connection
+   through the state mutex), so its thread U has one blocking step fewer than modelled here: every schedule of the
+   code is a schedule of this model in which U's lock request is granted at once and released before conn.Close,
+   and the absence of a deadlock proved for the model holds of the code a fortiori.  The model is kept as it is:
+   it is the protocol the pinned tree had, and the stronger statement. *)
 From Coq Require Import List Arith Bool Lia.
 Import ListNotations.
 
